@@ -50,6 +50,9 @@ def corpus():
                            "Top": [("doshuffle", [("A", None), ("B", None), ("C", None)]), ("loop", [T("done")])]}, ["pa", "pb"])
     P["shuffle-weighted-2"] = prog({"A": sub("a", "pa", 2), "B": sub("b", None),
                                     "Top": [("doshuffle", [("A", 3), ("B", 1)]), ("loop", [T("done")])]}, ["pa"])
+    P["shuffle-weighted-3"] = prog({"A": sub("a", None), "B": sub("b", "pb"), "C": sub("c", None),
+                                    "Top": [("doshuffle", [("A", 7), ("B", 2), ("C", 1)]), ("loop", [T("done")])]}, ["pb"])
+    P["runtime-draws-with-keyword-parameters"] = prog({"Top": [("loop", [("drawkw", 0, 2, (1, 0, 3)), T("x")])]}, [])
     P["runtime-draws"] = prog({"Top": [("loop", [("draw", 0, 3), ("if", "again", [("draw", 0, 3)]), T("x")])]}, ["again"])
     return P
 
@@ -149,10 +152,16 @@ def harness_for(name, P, horizon):
             acts_real = [e for e in D.LOG if isinstance(e[1], tuple) and e[1][0] == "apply"]
             acts_ref = [e for e in ref.log if isinstance(e[1], tuple) and e[1][0] == "apply"]
             ctx.check("behaviours-run-equal-reference", acts_real == acts_ref, real=acts_real[:8], expected=acts_ref[:8])
+            ndraw = sum(1 for e in ref.log if e[1] == "draw")
+            ctx.check("each-evaluation-returns-its-own-draw", len(D.DRAWN) == ndraw, seen=len(D.DRAWN), evaluations=ndraw)
             draws = [c for c in calls if c[0] == "randint"]
-            ctx.check("each-evaluation-returns-its-own-draw", len(D.DRAWN) == len(draws))
-            for (t, v), c in zip(D.DRAWN, draws):
-                ctx.check("value-seen-by-the-program-is-the-draw", E.sym_and(v == c[4], t == c[3]))
+            if len(draws) == len(D.DRAWN):
+                for (t, v), c in zip(D.DRAWN, draws):
+                    ctx.check("value-seen-by-the-program-is-the-draw", E.sym_and(v == c[4], t == c[3]))
+            kw = [c for c in calls if c[0] == "choices" and len(c) > 4 and any(r[0] == "choices" and r[2] == c[2] for r in req)]
+            if kw and len(kw) == len(D.DRAWN):
+                for (t, v), c in zip(D.DRAWN, kw):
+                    ctx.check("value-seen-by-the-program-is-the-chosen-element", v == c[4][c[3]] and t == c[2])
 
     return h
 
